@@ -110,6 +110,26 @@ class VLoop(base_events.BaseEventLoop):
         finally:
             handle.cancel()
 
+    def call_at_us(self, when_us: int, fn, *args) -> asyncio.Future:
+        """
+        Run fn(*args) directly from a timer callback with exactly that deadline (not from a task:
+        a task woken by a timer runs one loop iteration later, i.e. always after every timer
+        callback of the instant).  Returns a future with fn's result / exception.
+        """
+        fut = self.create_future()
+
+        def cb():
+            try:
+                res = fn(*args)
+            except BaseException as err:    # pylint: disable=broad-except
+                if not fut.done():
+                    fut.set_result(('raised', err))
+            else:
+                if not fut.done():
+                    fut.set_result(('ok', res))
+        self.call_at(when_us / 1_000_000, cb)
+        return fut
+
     def _record_exception(self, loop, context):
         ctx = {k: (repr(v) if k not in ('message',) else v) for k, v in context.items()
                if k in ('message', 'exception', 'task', 'future', 'handle')}
